@@ -1,2 +1,267 @@
-//! C10 (GUID part) — to be written. The GUID type lives in zbus, so this part of C10 runs in zb.
-pub fn run(_report: &vcommon::Report) {}
+//! C10 (GUID part). The GUID type lives in zbus, so this part of C10 runs in the zb crate.
+//!
+//! `run(report)` adds its cases to the given C10 report (evaluations, outcome classes, non-trivial
+//! hashes, violations, assumptions); the caller finishes the report.
+//!
+//! Reference (D-Bus specification, "UUIDs"): a GUID is exactly 32 hexadecimal digits - no hyphens,
+//! braces or `urn:uuid:` prefix. Either letter case is accepted.
+//!
+//! Space:
+//!  * every string of length <= 4 over {0,a,F,g,-};
+//!  * for each length 30..=34 and each base filling (all `0`, all `a`, all `F`, mixed `0aF9bE...`):
+//!    the base itself and every substitution of one or two positions by each of {0,a,F,g,-}
+//!    (position classes: the rest of the string stays valid hex);
+//!  * UUID text forms of three 32-digit values in lower/upper/mixed case: hyphenated 8-4-4-4-12,
+//!    braced, `urn:uuid:`, braced without hyphens, hyphens at wrong places, padded with spaces,
+//!    `0x` prefix, trailing NUL-free junk.
+//! Routes: TryFrom<&str>, TryFrom<String>, TryFrom<Str>, TryFrom<Cow<str>>, FromStr,
+//! from_static_str, Deserialize (Guid and OwnedGuid) from a reference-encoded D-Bus string.
+
+use std::{borrow::Cow, collections::BTreeMap, str::FromStr};
+
+use serde_json::json;
+use vcommon::{hash64, Report, Violation};
+use zbus::{
+    zvariant::{
+        serialized::{Context, Data},
+        Str, LE,
+    },
+    Guid, OwnedGuid,
+};
+
+/// The reference acceptor.
+pub fn ref_guid(s: &str) -> bool {
+    s.len() == 32 && s.bytes().all(|b| b.is_ascii_hexdigit())
+}
+
+/// If `s` is one of the textual UUID decorations of 32 hex digits, say which.
+pub fn uuid_text_form(s: &str) -> Option<String> {
+    let mut parts = vec![];
+    let mut t = s;
+    if let Some(r) = t.strip_prefix("urn:uuid:") {
+        parts.push("urn");
+        t = r;
+    }
+    if let Some(r) = t.strip_prefix('{').and_then(|r| r.strip_suffix('}')) {
+        parts.push("braced");
+        t = r;
+    }
+    let b = t.as_bytes();
+    let plain: String;
+    if b.len() == 36 && [8, 13, 18, 23].iter().all(|i| b[*i] == b'-') {
+        parts.push("hyphenated");
+        plain = t.chars().enumerate().filter(|(i, _)| ![8, 13, 18, 23].contains(i)).map(|(_, c)| c).collect();
+    } else {
+        plain = t.to_string();
+    }
+    if ref_guid(&plain) && !parts.is_empty() {
+        Some(parts.join("+"))
+    } else {
+        None
+    }
+}
+
+#[derive(Debug, Clone, PartialEq)]
+enum Out {
+    Accepted,
+    Rejected,
+    Altered(String),
+    Panicked(String),
+}
+
+fn obs<T, E>(s: &str, f: impl FnOnce() -> Result<T, E>, held: impl FnOnce(&T) -> String) -> Out {
+    match vcommon::catch(|| f().ok().map(|t| held(&t))) {
+        Ok(Some(h)) if h == s => Out::Accepted,
+        Ok(Some(h)) => Out::Altered(h),
+        Ok(None) => Out::Rejected,
+        Err(m) => Out::Panicked(m),
+    }
+}
+
+fn routes(s: &str) -> Vec<(&'static str, &'static str, Out)> {
+    // SAFETY: the Guid built from `st` is dropped inside `obs`, before `s` goes away.
+    let st: &'static str = unsafe { std::mem::transmute::<&str, &'static str>(s) };
+    let h = |g: &Guid<'_>| g.as_str().to_string();
+    let ho = |g: &OwnedGuid| g.as_str().to_string();
+    let mut enc = (s.len() as u32).to_le_bytes().to_vec();
+    enc.extend_from_slice(s.as_bytes());
+    enc.push(0);
+    let d = Data::new(enc, Context::new_dbus(LE, 0));
+    vec![
+        ("try_from(&str)", "str", obs(s, || Guid::try_from(s), h)),
+        ("try_from(String)", "str", obs(s, || Guid::try_from(s.to_string()), h)),
+        ("try_from(Str)", "str", obs(s, || Guid::try_from(Str::from(s)), h)),
+        ("try_from(Cow<str>)", "str", obs(s, || Guid::try_from(Cow::Borrowed(s)), h)),
+        ("from_str", "str", obs(s, || Guid::from_str(s), h)),
+        ("from_static_str", "static", obs(s, || Guid::from_static_str(st), h)),
+        ("deserialize(dbus s)", "deserialize", obs(s, || d.deserialize::<Guid<'_>>().map(|r| r.0), h)),
+        ("Owned::deserialize(dbus s)", "deserialize", obs(s, || d.deserialize::<OwnedGuid>().map(|r| r.0), ho)),
+    ]
+}
+
+pub fn cases() -> Vec<(String, &'static str)> {
+    let syms = ['0', 'a', 'F', 'g', '-'];
+    let mut out: Vec<(String, &'static str)> = vec![];
+    // short strings
+    let total = vcommon::enumerate::count_strings(5, 4);
+    let mut idx = vec![];
+    for i in 0..total {
+        vcommon::enumerate::nth_string(5, i, &mut idx);
+        out.push((idx.iter().map(|j| syms[*j]).collect(), "short"));
+    }
+    // position classes around 32
+    let mixed: Vec<char> = "0aF9bE".chars().collect();
+    for len in 30..=34usize {
+        let bases: Vec<Vec<char>> = vec![
+            vec!['0'; len],
+            vec!['a'; len],
+            vec!['F'; len],
+            (0..len).map(|i| mixed[i % mixed.len()]).collect(),
+        ];
+        for base in bases {
+            out.push((base.iter().collect(), "length"));
+            for p in 0..len {
+                for c in syms {
+                    let mut b = base.clone();
+                    b[p] = c;
+                    out.push((b.iter().collect(), "one-position"));
+                    for q in p + 1..len {
+                        for e in syms {
+                            let mut b2 = b.clone();
+                            b2[q] = e;
+                            out.push((b2.iter().collect(), "two-positions"));
+                        }
+                    }
+                }
+            }
+        }
+    }
+    // UUID text forms
+    for hex in ["0123456789abcdef0123456789abcdef", "0123456789ABCDEF0123456789ABCDEF", "00000000000000000000000000000000", "aBcDeF0123456789AbCdEf9876543210"] {
+        let hy = format!("{}-{}-{}-{}-{}", &hex[0..8], &hex[8..12], &hex[12..16], &hex[16..20], &hex[20..32]);
+        let forms = vec![
+            hex.to_string(),
+            hy.clone(),
+            format!("{{{hy}}}"),
+            format!("urn:uuid:{hy}"),
+            format!("URN:UUID:{hy}"),
+            format!("{{{hex}}}"),
+            format!("urn:uuid:{hex}"),
+            format!("urn:uuid:{{{hy}}}"),
+            format!("({hy})"),
+            format!("{}-{}", &hex[0..16], &hex[16..32]),
+            format!("{}-{}-{}-{}-{}", &hex[0..4], &hex[4..8], &hex[8..12], &hex[12..16], &hex[16..32]),
+            format!("{hy}-"),
+            format!("-{hy}"),
+            format!(" {hex}"),
+            format!("{hex} "),
+            format!("{hex}\n"),
+            format!("0x{hex}"),
+            format!("0x{}", &hex[2..]),
+            format!("{hex}{hex}"),
+            format!("{}", &hex[0..31]),
+            format!("{hex}0"),
+            format!("{}g", &hex[0..31]),
+            format!("{}é", &hex[0..30]),
+            format!("+{}", &hex[1..]),
+        ];
+        for f in forms {
+            out.push((f, "uuid-form"));
+        }
+    }
+    let mut seen = std::collections::BTreeSet::new();
+    out.retain(|(s, _)| seen.insert(s.clone()));
+    out
+}
+
+pub fn run(report: &Report) {
+    let cs = cases();
+    let n = cs.len();
+    const BLOCK: usize = 4096;
+    // identity -> (count, first violation); merged deterministically after the parallel part
+    let per_block: Vec<std::sync::Mutex<BTreeMap<String, (u64, Violation)>>> = (0..n.div_ceil(BLOCK)).map(|_| Default::default()).collect();
+    vcommon::par_for(n.div_ceil(BLOCK), 1, |b| {
+        let mut viol: BTreeMap<String, (u64, Violation)> = BTreeMap::new();
+        let mut outcomes: BTreeMap<String, u64> = BTreeMap::new();
+        let mut nontrivial = vec![];
+        let mut evals = 0u64;
+        for (s, family) in &cs[b * BLOCK..((b + 1) * BLOCK).min(n)] {
+            let expect = ref_guid(s);
+            let rs = routes(s);
+            evals += 1;
+            let any = rs.iter().any(|r| matches!(r.2, Out::Accepted | Out::Altered(_)));
+            *outcomes
+                .entry(format!(
+                    "guid:{}",
+                    match (expect, any) {
+                        (true, true) => "valid-accepted",
+                        (true, false) => "valid-rejected",
+                        (false, true) => "invalid-accepted-by-some-route",
+                        (false, false) => "invalid-rejected",
+                    }
+                ))
+                .or_insert(0) += 1;
+            // non-trivial: within one or two substitutions of a valid GUID, or a UUID text form
+            if *family != "short" {
+                nontrivial.push(hash64(&("Guid", s)));
+            }
+            for (route, group, o) in rs {
+                let (bad, clause, dir) = match &o {
+                    Out::Panicked(_) => (true, "no-panic", "panic"),
+                    Out::Altered(_) => (true, "accepted-value-holds-input", "altered"),
+                    Out::Accepted if !expect => (true, "accept-iff-grammar", "accepts-invalid"),
+                    Out::Rejected if expect => (true, "accept-iff-grammar", "rejects-valid"),
+                    _ => (false, "", ""),
+                };
+                if !bad {
+                    continue;
+                }
+                let form = uuid_text_form(s);
+                let v = Violation::new(
+                    clause,
+                    format!("Guid: {route} on {s:?} -> {o:?}; a GUID is exactly 32 hex digits, so the reference {} it", if expect { "accepts" } else { "rejects" }),
+                    json!({"kind": "Guid", "string": s}),
+                )
+                .feat("type", "Guid")
+                .feat("route", route)
+                .feat("route_group", group)
+                .feat("direction", dir)
+                .feat("uuid_text_form", form.is_some())
+                .feat("form", form.unwrap_or_else(|| "none".into()));
+                let id = format!("{} {:?}", v.clause, v.features);
+                viol.entry(id).and_modify(|e| e.0 += 1).or_insert((1, v));
+            }
+        }
+        report.eval(evals);
+        for (k, c) in outcomes {
+            report.outcome_n(&k, c);
+        }
+        report.nontrivial_many(nontrivial);
+        *per_block[b].lock().unwrap() = viol;
+    });
+    let mut total = 0u64;
+    for m in per_block {
+        for (_, (c, v)) in m.into_inner().unwrap() {
+            total += c;
+            report.violation(v);
+        }
+    }
+    report.set("guid_strings", json!(n));
+    report.add("guid_violating_route_observations", total);
+    report.assume("GUID reference = exactly 32 hexadecimal digits of either case (D-Bus specification, UUIDs)");
+    report.assume("GUID strings: all strings of length <= 4 over {0,a,F,g,-}; for lengths 30..=34 four base fillings with every one- and two-position substitution by {0,a,F,g,-}; UUID text forms (hyphenated, braced, urn, misplaced hyphens, padding, 0x) of four digit strings");
+}
+
+/// Re-run one recorded GUID case (replay payload `{"kind":"Guid","string":...}`); returns true if it
+/// still differs from the reference.
+pub fn replay(s: &str) -> bool {
+    let expect = ref_guid(s);
+    println!("C10 (GUID) replay: {s:?} ({} bytes); reference: {}", s.len(), if expect { "accepts" } else { "rejects" });
+    let mut bad = false;
+    for (route, _, o) in routes(s) {
+        let ok = matches!((&o, expect), (Out::Accepted, true) | (Out::Rejected, false));
+        bad |= !ok;
+        println!("  {route:28} -> {o:?}{}", if ok { "" } else { "   <-- differs from the reference" });
+    }
+    bad
+}
